@@ -1,3 +1,4 @@
+import Proofs.Escape
 import Proofs.Layout
 import Proofs.LayoutHeadings
 import Proofs.LayoutRoles
